@@ -181,7 +181,7 @@ def check(ctx):
             fixed = dict(('%s.%s' % (base, a), 'v') for a in k.get('nonnull', ()))
             n, atoms, bad, crashes = roundtrip.check_fixpoint(r2, k['tag'], wm.rel, e.rows, base, reader, k['rmethod'], set(k['nvars']), k['cls'],
                                                               py, wm, k.get('locals'), opaque_attrs=k.get('carried', ()),
-                                                              reader_atoms=k.get('atoms'), fixed=fixed)
+                                                              reader_atoms=k.get('atoms'), fixed=fixed, thorough=(ctx.tier == 'thorough'))
         except roundtrip.Unknown as ex:
             raise AnalysisError('<%s>: %s' % (k['tag'], ex))
         stats[k['tag']] = {'valuations': n, 'model_attributes': len(atoms)}
